@@ -3,7 +3,7 @@ H = "harness/C05_jsgf.c"
 GROUPS = [
     dict(name="jsgf_build_fsg_refuses", harness=H, entry="h_jsgf_build_fsg_internal", enforce="jsgf_build_fsg_internal", replace=["expand_rule", "glist_free"],
          allow_no_body=["*"], min_postconditions=2),
-    dict(name="expand_rhs_links", harness=H, entry="h_expand_rhs", enforce="expand_rhs", defines=["VERIF_C05_RHS"], unwind=12, unwindset="expand_rhs_wrapped_for_contract_checking.0:3,expand_rhs_wrapped_for_contract_checking.1:4,strcmp.0:9",
+    dict(name="expand_rhs_links", tiers=("probe",), harness=H, entry="h_expand_rhs", enforce="expand_rhs", defines=["VERIF_C05_RHS"], unwind=12, unwindset="expand_rhs_wrapped_for_contract_checking.0:3,expand_rhs_wrapped_for_contract_checking.1:4,strcmp.0:9",
          replace=["hash_table_lookup", "jsgf_fullname_from_rule", "jsgf_add_link", "expand_rule"], allow_no_body=["*"], min_postconditions=2,
          bounded="right-hand sides of <= 2 atoms with symbolic 7-character names, rule stack of <= 1 rule"),
 ]
@@ -12,7 +12,7 @@ ASSUMPTIONS = [
     "the case under contract is 'the expansion failed' (verif_expand_ret == -1); fresh grammar object (no links from an earlier build)",
 ]
 HAND_LEMMAS = []
-NOT_COVERED = ["language equivalence of the compiler (sequences, alternatives, Kleene closures, optionals, tail recursion: seeded change C05_A)", "weight normalisation (seeded change C05_B)", "the generated scanner and parser", "which grammars make expand_rule fail (recursion and undefined-rule detection inside expand_rhs)"]
+NOT_COVERED = ["expand_rhs link emission (contract written: every link for a rule reference must enter the referenced rule's entry state; tier probe: one caller obligation fails for a reason not yet understood, 9 minutes per run)", "language equivalence of the compiler (sequences, alternatives, Kleene closures, optionals, tail recursion: seeded change C05_A)", "weight normalisation (seeded change C05_B)", "the generated scanner and parser", "which grammars make expand_rule fail (recursion and undefined-rule detection inside expand_rhs)"]
 CLAIM = dict(
     text="Only the refusal clause is decided: whenever the rule expansion reports failure, jsgf_build_fsg_internal returns NULL (no FSG is handed out) and leaves no rule on the rule stack; proved for arbitrary grammar/rule objects. That the compiled FSG accepts exactly the JSGF language, and that weights are normalised, is NOT decided by any contract here.",
     note="refusal clause only (one genuine defect found and fixed there); expansion functions are recursive and only summarised by an assumed contract; language equivalence not covered",
